@@ -88,7 +88,8 @@ SIM_RULE_COMMON = ("Real FSM thread (rtr_start) against a scripted RFC 8210 cach
                    "one fault kind {ERROR, WOULDBLOCK, INTR, CLOSED} at every call position, then random 2..6-fault schedules; "
                    "expiry = outage of E-1..E+3, E+retry, 3E seconds through 7 failure modes; stops = rtr_stop at the k-th "
                    "cancellation point, restart, converge; version = version-0 caches of 3 behaviours, foreign version bytes, late "
-                   "downgrades; intervals = End of Data boundary triples x 4 modes; reload = forced reloads with overlapping sets. ")
+                   "downgrades; intervals = End of Data boundary triples x 4 modes; reload = forced reloads with overlapping sets. "
+                   "One Error Report in five that the cache sends is padded to the maximum PDU length (3248 bytes, or up to 11 less). ")
 
 
 def c03():
@@ -313,10 +314,11 @@ def c10():
         runs=[_tab_run("spki", 640, 12800), _sim_run("reload", 400, 8000), _sim_run("stops", 300, 6000)],
         floors={"c10/get_all_checked": T(500000, 10000000), "c10/search_by_ski_checked": T(100000, 2000000), "c10/copy_swap_diff_cycles": T(1500, 30000),
                 "c10/histories_crossing_grow_step": T(300, 6000), "c10/histories_shrinking_below_eighth": T(100, 2000), "c10/callbacks": T(200000, 4000000)},
-        rule=("Histories over router keys with 5 shared SKIs and AS numbers found by a start-up search to collide in the low 10 bits of "
+        rule=("Histories over router keys (three in four shaped like real ones: the 27 leading bytes common to every P-256 "
+              "SubjectPublicKeyInfo, two differing bytes somewhere in the point) with 5 shared SKIs and AS numbers found by a start-up search to collide in the low 10 bits of "
               "tommy_inthash_u32 (bucket sharing between different AS numbers), target sizes 8..1100 so that the linear hash table grows "
               "past 33/65/129/257/513/1025 entries and shrinks again below 1/8 load; operations: add, duplicate add, remove, remove of a "
-              "near-duplicate (AS, key or source differs), remove-by-source, and the reload pattern copy_except_socket + add + swap + "
+              "near-duplicate (AS, any single bit of the key, or source differs), remove-by-source, and the reload pattern copy_except_socket + add + swap + "
               "notify_diff, plus a raw swap. Oracle: flat model of (AS, SKI, key, source); return codes must be the model's; after every "
               "operation get_all(AS, SKI) for all 65 pairs (sampled when the table is large) and search_by_ski for all SKIs must be "
               "multiset-equal to the model; the spki_update_fp callbacks are replayed and must reproduce the table, also inside rtrsim "
@@ -385,7 +387,10 @@ def c16():
               "(query, lo, hi, state, result set). Offline checker: some step v in [lo,hi] must explain the answer (validation state and "
               "reason set per RFC 6811, exact enumeration, exact key sets). TSan build of the same workload: reports are read from the "
               "log, de-duplicated by (kind, innermost function < outermost table entry point) pairs; any report touching table code is a "
-              "violation. Non-trivial = a run with reads that overlapped a write; distinct by hash."),
+              "violation. Every third run is 'hot': all keys under two (AS, SKI) pairs, 88% of the writer's operations on keys, 2-5 "
+              "readers doing 80% key lookups. Injected delay: one in four allocations made on a reader thread (through "
+              "lrtr_set_alloc_functions) spins 2-40 us before returning - an allocation is what a lookup does between or inside its "
+              "critical sections. Non-trivial = a run with reads that overlapped a write; distinct by hash."),
         assumptions=CONC_ASSUME,
     )
 
@@ -486,7 +491,8 @@ def c12():
               "result must be exactly one well-formed DER ECDSA-Sig-Value of the announced length and must verify under the matching "
               "public key with EVP_DigestVerify over the ORACLE's RFC 8205 4.2 octet sequence; the path assembled from the generated "
               "signatures must validate as VALID both by the library and by the oracle. Negative cases per path: random, truncated "
-              "and wrong-curve (P-384) private keys -> LOAD_PRIV_KEY_ERROR; unsupported suite / AFI and path_len != sigs_len + 1 -> "
+              "and wrong-curve (P-384) private keys -> LOAD_PRIV_KEY_ERROR; unsupported suite / AFI and path_len != sigs_len + 1 (too few "
+              "signatures: any count 0..n-2; too many: n) -> "
               "their specific codes with *new_signature left NULL; every negative call is made twice and must answer the same. A sample "
               "of the EVP verdicts is re-judged by the pure-Python verifier. Distinct by hash of the path."),
         assumptions=BGP_ASSUME,
@@ -495,14 +501,93 @@ def c12():
 
 SPECS.update({"C11": c11, "C12": c12})
 
+# ------------------------------------------------------------------------------ C04: coverage-guided stage
+def _c04_libfuzzer(bdir, res, tier, seed):
+    """clang libFuzzer + ASan + the fatal UBSan subset over the same simulator: input = control byte + the stream the
+    cache sends.  A sanitizer report, an assertion, a C04 monitor verdict (framing rule, segmentation invariance, spin)
+    or a hang is a violation; the artifact is kept under replays/C04/."""
+    import re
+    import shutil
+    import subprocess
+    from concurrent.futures import ThreadPoolExecutor
+    from . import runner as R
+    nproc, runs = (8, 2500) if tier == "quick" else (16, 150000)
+    srcs = [os.path.join(B.VERIF, "harness", x) for x in SIM_SRCS]
+    try:
+        binp, _ = B.build("fuzz", srcs, "rtrfuzz", bdir, wraps=WRAP_SIM, extra_cflags=["-DVERIF_LIBFUZZER"])
+    except B.BuildError as e:
+        res.harness_fail.append("libfuzzer build failed: %s" % str(e)[-800:])
+        return
+    fdir = os.path.join(bdir, "fuzz")
+
+    def one(i):
+        d = os.path.join(fdir, "p%d" % i)
+        corp, art = os.path.join(d, "corpus"), os.path.join(d, "art")
+        os.makedirs(corp)
+        os.makedirs(art)
+        env = dict(os.environ)
+        env["ASAN_OPTIONS"] = "detect_leaks=0:detect_stack_use_after_return=0:allocator_may_return_null=1:abort_on_error=1"
+        env["UBSAN_OPTIONS"] = "print_stacktrace=1"
+        env["VERIF_FUZZ_SEEDDIR"] = corp
+        env["VERIF_FUZZ_NSEEDS"] = "96"
+        env["VERIF_FUZZ_OUT"] = os.path.join(d, "monitor.out")
+        cmd = [binp, "-seed=%d" % (int(seed) * 1000 + i + 1), "-runs=%d" % runs, "-max_len=6000", "-detect_leaks=0", "-rss_limit_mb=0",
+               "-timeout=60", "-use_value_profile=1", "-print_final_stats=1", "-artifact_prefix=" + art + "/", corp]
+        logp = os.path.join(d, "log")
+        with open(logp, "w") as lf:
+            try:
+                rc = subprocess.run(cmd, stdout=lf, stderr=subprocess.STDOUT, env=env, cwd=d, timeout=(900 if tier == "quick" else 6 * 3600)).returncode
+            except subprocess.TimeoutExpired:
+                rc = "watchdog"
+        return i, rc, logp, art
+
+    os.makedirs(fdir)
+    with ThreadPoolExecutor(max_workers=nproc) as ex:
+        outs = list(ex.map(one, range(nproc)))
+    cov = ft = 0
+    for i, rc, logp, art in outs:
+        txt = open(logp, errors="replace").read()
+        m = re.findall(r"stat::number_of_executed_units: (\d+)", txt)
+        if m:
+            res.add_cnt("libfuzzer/executions", int(m[-1]))
+        m = re.findall(r"cov: (\d+) ft: (\d+) corp: (\d+)", txt)
+        if m:
+            cov = max(cov, int(m[-1][0]))
+            ft = max(ft, int(m[-1][1]))
+            res.add_cnt("libfuzzer/corpus_units_at_end", int(m[-1][2]))
+        res.add_cnt("libfuzzer/processes", 1)
+        if rc == 0:
+            continue
+        if rc == "watchdog":
+            res.inconclusive.append("libfuzzer process %d did not finish within the wall-clock watchdog" % i)
+            continue
+        arts = sorted(os.listdir(art))
+        mv = re.search(r"MONITOR-VIOLATION prop=(\S+) key=(\S+) msg=(.*)", txt)
+        if mv:
+            key, msg = mv.group(2), mv.group(3)
+        elif any(a.startswith("timeout-") for a in arts):
+            key, msg = "C04:hang:libfuzzer", "one execution exceeded 60 s"
+        else:
+            key, msg = "C04:" + R.classify_crash(-6, txt), txt[-3000:]
+        keep = ""
+        if arts:
+            rd = os.path.join(B.VERIF, "replays", "C04")
+            os.makedirs(rd, exist_ok=True)
+            keep = os.path.join(rd, "libfuzzer-" + arts[0])
+            shutil.copy(os.path.join(art, arts[0]), keep)
+        res.viol.append(dict(prop="C04", key=key, case=-1, run="libfuzzer", seed=seed,
+                             msg="%s | input kept at %s (control byte + stream; re-run: build with lib/build.py config 'fuzz', -DVERIF_LIBFUZZER, then <binary> <file>)" % (msg, keep)))
+    res.maxcnt["max:libfuzzer/edges_covered"] = cov
+    res.maxcnt["max:libfuzzer/features"] = ft
+
 
 def c04():
     return dict(
-        id="C04", level="exploration", engine="rtrsim",
+        id="C04", level="exploration", engine="rtrsim", post=_c04_libfuzzer, post_on_replay=False,
         builds=[_sim_build()],
         runs=[_sim_run("fuzz", 18000, 250000), _sim_run("defect", 3600, 54000), _sim_run("faults", 2048, 40960), _sim_run("conv", 1000, 20000)],
         floors={"c04/streams_x_chunkings": T(70000, 950000), "c04/post_exchange_probes": T(17000, 240000), "sim/response/defective": T(10000, 200000),
-                "sim/response/truncated": T(2000, 40000)},
+                "sim/response/truncated": T(2000, 40000), "libfuzzer/executions": T(15000, 1500000)},
         rule=(SIM_RULE_COMMON + "fuzz: a structure-aware generator builds a well-formed answer (Cache Response, up to 24 prefix / router-key "
               "PDUs, optional Error Report, End of Data) and applies 0-3 mutations: length field from {0,1,7,8,9,12,20,24,32,3247,3248,3249, "
               "65535,65536,2^31-1,2^31,2^32-1, correct+-4}, type, version, flags / prefix length / max length / zero byte from "
@@ -516,8 +601,13 @@ def c04():
               "is replayed under 4 read segmentations (maximal, 1-byte, random, 3-byte) and the digest of (every byte the client sent, "
               "state-callback sequence, final socket state and serial, contents of both tables) must be identical; (4) framing rule from "
               "the reference validator: a PDU with length < 8, > 3248, inconsistent with its type, or of unknown type must make the "
-              "exchange fail with the tables unchanged. Distinct by outcome digest."),
-        assumptions=SIM_ASSUME + ["libFuzzer is not used: coverage comes from the structure-aware generator and the defect enumeration"],
+              "exchange fail with the tables unchanged. Distinct by outcome digest. Coverage-guided stage: the same simulator built with "
+              "clang libFuzzer + ASan + the fatal UBSan subset (8 processes x 2500 executions quick, 16 x 150000 thorough, value profile "
+              "on); input = one control byte (where the stream arrives, interval mode, cache version, close afterwards, second read "
+              "segmentation) + the stream; seed corpus = 96 streams of the structure-aware generator per process; scenario seed constant so "
+              "that session and serial can be learnt; each execution runs the stream under maximal reads and one other segmentation and "
+              "compares outcomes; a C04 monitor verdict traps like a sanitizer report."),
+        assumptions=SIM_ASSUME + ["coverage-guided stage: monitors of sibling properties stay diagnostic there, as in the generator-driven fuzz mode"],
     )
 
 
@@ -542,7 +632,9 @@ def c15():
               "socket a real FSM thread over its own scripted cache {sync ok, 1-4 failing connects, fatal Error Report for 1-3 queries, "
               "no-data for 1-3 queries, silence, success then a fatal answer to a later poll} on the shared virtual clock; all transport "
               "calls and wrapped sleeps pass a token gate so that exactly one FSM thread runs between two gates and the (seeded) harness "
-              "picks which. Trace monitor on status_fp / rtr_start / rtr_stop: (a) ESTABLISHED is reported for a group only if each of its "
+              "picks which; one scenario in three gets a further group (preference before, between or behind the existing ones) through "
+              "rtr_mgr_add_group once a third to two thirds of its steps are done, every thread standing at its gate meanwhile. "
+              "Trace monitor on status_fp / rtr_start / rtr_stop: (a) ESTABLISHED is reported for a group only if each of its "
               "sockets reached ESTABLISHED since it was started; (b) after a group was reported ESTABLISHED, by the reporting thread's next "
               "gate every less-preferred group has no running socket and was last reported CLOSED; (c) every rtr_stop issued from a "
               "callback targets a strictly less-preferred group; (d) when a group goes non-ERROR -> ERROR while no other group is reported "
